@@ -627,6 +627,36 @@ func (e *Env) runRPC() error {
 			if step.Push.Split > 0 {
 				c.SplitNext = step.Push.Split
 			}
+			if op, ok := strings.CutPrefix(step.Push.Kind, "envelope:"); ok {
+				// a well-formed pong in an envelope that breaks the rules of the envelope itself (declared length, msg_id
+				// parity, damaged or foreign ciphertext): nothing the client may die of
+				a, b := int(step.Push.Arg>>8)&0xffff, int(step.Push.Arg>>2)&0x3f
+				f := c.MangledFrame(PushBody(&PushSpec{Kind: "pong", Arg: step.Push.Arg}), op, a, b, []byte{byte(step.Push.Arg >> 3), byte(step.Push.Arg >> 11), byte(i)})
+				if f == nil {
+					e.Res.Notes = append(e.Res.Notes, fmt.Sprintf("step %d: no connection to push on (envelope)", i))
+					continue
+				}
+				e.Srv.LogNote("push", c, 0, step.Push.Kind)
+				c.WriteFrame(f)
+				continue
+			}
+			if step.Push.Kind == "bad-msg-clock" {
+				// a server whose clock differs from the client's by Arg seconds tells it so: bad_msg_notification 16 / 17
+				// for the client's latest message, in an envelope whose msg_id carries the server's time
+				var last int64
+				for _, ev := range e.Hub.Snapshot() {
+					if ev.Kind == "enc" {
+						last = ev.MsgID
+					}
+				}
+				code := int32(17) // msg_id too high: the client's clock is ahead
+				if step.Push.Arg > 0 {
+					code = 16
+				}
+				e.Srv.LogNote("push", c, 0, fmt.Sprintf("bad-msg-clock skew=%ds", step.Push.Arg))
+				c.SendRawEncrypted((time.Now().Unix()+step.Push.Arg)<<32|1, 0, (&refsrv.W{}).U32(refsrv.IDBadMsgNotify).I64(last).I32(1).I32(code).B)
+				continue
+			}
 			body := PushBody(step.Push)
 			if step.Push.Gzip {
 				body = refsrv.GzipPacked(body)
@@ -792,6 +822,20 @@ func (e *Env) runRPC() error {
 			}
 			if st.e.countCtor("7abe77ec") == before {
 				e.Res.Notes = append(e.Res.Notes, fmt.Sprintf("step %d: the ping did not arrive", i))
+			}
+		case "store-fault":
+			// the next N stores of the session fail (disk full); with N = 0: wait until the announced failures have happened
+			if step.N > 0 {
+				atomic.StoreInt32(&e.StoreFaults, int32(step.N))
+				e.Srv.LogNote("store-fault", nil, 0, fmt.Sprintf("next=%d", step.N))
+			} else {
+				for deadline := time.Now().Add(e.stepPatience()); atomic.LoadInt32(&e.StoreFaults) > 0 && time.Now().Before(deadline); {
+					time.Sleep(time.Millisecond)
+				}
+				if atomic.LoadInt32(&e.StoreFaults) > 0 {
+					e.Res.Notes = append(e.Res.Notes, fmt.Sprintf("step %d: the client did not try to store the session (requests arrived: none judged)", i))
+					atomic.StoreInt32(&e.StoreFaults, 0)
+				}
 			}
 		case "sleep":
 			time.Sleep(time.Duration(step.Ms) * time.Millisecond)
